@@ -99,6 +99,13 @@ Definition valid (c : case) : bool :=
 (* ---------- the model's observation ---------- *)
 Definition val_eqb (a b : val) : bool := sx_eqb (sx_val a) (sx_val b).
 
+(* Library behaviour recorded as assumptions (observed, not modelled in Model/XrLabel.v):
+   - xr.merge aligns its arguments: a dimension name with two different sizes raises AlignmentError;
+   - `ds[name] = array` for a bare ndarray: rank 0 is a dimensionless variable, rank 1 becomes an index
+     coordinate on a new dimension called `name`, rank >= 2 raises MissingDimensionsError. *)
+Definition sizes_conflict (l : list (str * nat)) : bool :=
+  existsb (fun p => existsb (fun q => str_eqb (fst p) (fst q) && negb (snd p =? snd q)) l) l.
+
 Definition run (c : case) : sx :=
   match map_run sym_body (c_funcs c) (c_inputs c) (c_internal c) with
   | Err e => SErr e
@@ -109,8 +116,17 @@ Definition run (c : case) : sx :=
       match dataset_vars (specs_of c) (input_names c) (output_names c) (c_li c) with
       | Err e => SErr e
       | Ok ds =>
-          let vars := map (fun a => (da_name a, da_dims a)) (ds_arrays ds) ++ map (fun n => (n, [])) (ds_plain ds) in
-          let cs := ds_coords ds in
+          let labelled := map (fun a => (da_name a, da_dims a)) (ds_arrays ds) in
+          if sizes_conflict (flat_map (fun v => match outv (fst v) with
+                                                | Some (VA a) => combine (snd v) (shp a)
+                                                | _ => [] end) labelled)
+          then SErr OtherError else
+          let plain_rank n := match outv n with Some (VA a) => length (shp a) | _ => 0 end in
+          if existsb (fun n => 1 <? plain_rank n) (ds_plain ds) then SErr OtherError else
+          let vars := labelled ++ map (fun n => (n, [])) (filter (fun n => plain_rank n =? 0) (ds_plain ds)) in
+          let cs := ds_coords ds
+                    ++ map (fun n => {| co_name := n; co_axes := [n]; co_srcs := [n] |})
+                           (filter (fun n => plain_rank n =? 1) (ds_plain ds)) in
           match mapM (fun v => match outv (fst v) with
                                | Some x => Ok (SL [SS (fst v); SL (map SS (snd v)); sx_val x])
                                | None => Err KeyError end) (sort_by_name fst vars),
